@@ -48,7 +48,42 @@ def parsePat : Sexp → Pat
   | .atom "scopeClosed" => .scopeClosed
   | _ => .anyException
 
+partial def parsePyInstr (tp : TimeParser τ) : Sexp → PyInstr τ
+  | .list [.atom "plog", k] => .log k.int!
+  | .list [.atom "newevent", x] => .newEvent x.nat!
+  | .list [.atom "newtimeout", x, d, v] => .newTimeout x.nat! (tm tp d) v.int!
+  | .list [.atom "newproc", x, .list (.atom "gen" :: code)] => .newProc x.nat! (code.map (parsePyInstr tp))
+  | .list [.atom "newcond", x, kind, .list (.atom "members" :: ms)] => .newCond x.nat! (match kind with | .atom "all" => true | _ => false) (ms.map Sexp.nat!)
+  | .list [.atom "succeed", x, v] => .succeed x.nat! v.int!
+  | .list [.atom "fail", x, c] => .fail x.nat! c.nat!
+  | .list [.atom "trigger", x, y] => .trigger x.nat! y.nat!
+  | .list [.atom "interrupt", x, c] => .interrupt x.nat! c.int!
+  | .list [.atom "addcb", x, k] => .addCallback x.nat! k.int!
+  | .list [.atom "probe", x] => .probe x.nat!
+  | .list [.atom "yield", x, c] => .yieldEv x.nat! (c.nat! == 1)
+  | .list [.atom "yieldtimeout", d, v, c] => .yieldTimeout (tm tp d) v.int! (c.nat! == 1)
+  | .list [.atom "yieldnative", n, c] =>
+    .yieldNative (match n with
+      | .list [.atom "delay", d] => .delay (tm tp d)
+      | .list [.atom "cond", ce] => .cond (parseCExpr tp ce)
+      | _ => .cond .eternity) (c.nat! == 1)
+  | .list [.atom "yieldcoro", d, v, f, c] =>
+    .yieldCoro (tm tp d) v.int! (match f with | .atom "none" => none | x => some x.nat!) (c.nat! == 1)
+  | .list [.atom "pret", v] => .ret v.int!
+  | .list [.atom "praise", c] => .raise c.nat!
+  | _ => .log (-999)
+
+def parsePyUntil (tp : TimeParser τ) : Sexp → PyUntil τ
+  | .list [.atom "time", t] => .time (tm tp t)
+  | .list [.atom "event", x] => .event x.nat!
+  | _ => .none
+
 partial def parseStmt (tp : TimeParser τ) : Sexp → Stmt τ
+  | .list [.atom "pyuntil", t0, u, .list (.atom "setup" :: code)] => .pyUntil (tm tp t0) (parsePyUntil tp u) (code.map (parsePyInstr tp))
+  | .list (.atom "pywith" :: t0 :: .list (.atom "setup" :: code) :: body) =>
+    .pyWith (tm tp t0) (code.map (parsePyInstr tp)) (body.map (parseStmt tp))
+  | .list [.atom "pydo", i] => .pyDo (parsePyInstr tp i)
+  | .list [.atom "pyawait", x] => .pyAwait x.nat!
   | .list [.atom "log", k] => .log k.int!
   | .list [.atom "now"] => .logNow
   | .list [.atom "logcond", c] => .logCond (parseCExpr tp c)
